@@ -452,19 +452,21 @@ class JSONGrammar(BaseGrammar):
         names_to_types = {}
 
         for property_name, property_description in properties.items():
-            property_json_type = property_description["type"]
+            # A property may have no type or several types.
+            property_json_type = property_description.get("type")
 
             self.__warn_for_array(
                 property_name, property_json_type, property_description
             )
             self.__warn_for_items(property_name, property_description)
 
-            if property_json_type not in self.__JSON_TO_PYTHON_TYPES:
+            if (
+                not isinstance(property_json_type, str)
+                or property_json_type not in self.__JSON_TO_PYTHON_TYPES
+            ):
                 property_type = None
             else:
-                property_type = self.__JSON_TO_PYTHON_TYPES[
-                    property_description["type"]
-                ]
+                property_type = self.__JSON_TO_PYTHON_TYPES[property_json_type]
 
             names_to_types[property_name] = property_type
 
